@@ -711,5 +711,9 @@ func ReplayFile(path string) int {
 
 // JudgeFor returns the judge of a property whose oracle needs nothing but the spec.
 func JudgeFor(prop string) Judge {
+	switch prop {
+	case "C14":
+		return JudgeC14
+	}
 	return nil
 }
